@@ -1,9 +1,9 @@
-\* trees of <= 6 nodes, depth <= 3, over {a, .h, _u, ln, mod, sub} / {a, .h, mod, sub}; one eighth by hash (173 254 in all)
+\* trees of <= 6 nodes, depth <= 3, over {a, .h, _u, ln, mod, sub} / {a, .h, mod, sub}; one twelfth by hash (173 254 in all)
 SPECIFICATION Spec
 CONSTANTS
   MaxNodes = 6  MaxDepth = 3
   TopNames = {1,3,4,10,11,12}  InnerNames = {1,3,11,12}
-  Sel = 0  Mod = 8  Always = 0  PruneFrom = 99  PruneMod = 1
+  Sel = 0  Mod = 12  Always = 0  PruneFrom = 99  PruneMod = 1
   NameUniverse <- AllNames
   PatUniverse <- AllPats
 INVARIANTS Header Judge
